@@ -274,7 +274,7 @@ func main() {
 	debug.SetGCPercent(800)
 	reduced8 := pick("With1", "With3", "WithNS", "WithMut", "LazyMut", "Named(a)", "Fields3", "Toggle")
 	reduced10 := pick("With1", "With3", "WithNS", "WithMut", "Lazy1", "LazyMut", "Named(a)", "Named()", "Fields3", "Toggle")
-	reduced5 := pick("With1", "LazyMut", "Named(a)", "FieldsNS", "Toggle")
+	reduced6 := pick("With1", "With3", "LazyMut", "Named(a)", "FieldsNS", "Toggle")
 	var spaces []space
 	for _, sug := range []bool{false, true} {
 		for d := 0; d <= 3; d++ {
@@ -286,7 +286,7 @@ func main() {
 	} else {
 		spaces = append(spaces, space{4, reduced10, "reduced-10: " + symList(reduced10), false})
 		spaces = append(spaces, space{4, reduced10, "reduced-10: " + symList(reduced10), true})
-		spaces = append(spaces, space{5, reduced5, "reduced-5: " + symList(reduced5), false})
+		spaces = append(spaces, space{5, reduced6, "reduced-6: " + symList(reduced6), false})
 	}
 
 	type item struct {
